@@ -99,6 +99,12 @@ template<class T> void touch(Out& o, const T& v, int depth, const std::string& w
       const int c = int(static_cast<const Node&>(v).category);
       if (c < 0 || c >= category_code_count) o.viol("unusable-result:" + where, where + "() returned a node whose category code is " + std::to_string(c));
       (void)dynamic_cast<const void*>(static_cast<const Node*>(&v));
+      // the object behind the reference really is of the class the accessor promises (a reference obtained by an unchecked
+      // down-cast is not usable: every virtual call through it is undefined)
+      if constexpr (std::is_polymorphic_v<U>) {
+         if (dynamic_cast<const U*>(static_cast<const Node*>(&v)) != &v)
+            o.viol("unusable-result:" + where + ":dynamic-type", where + "() returned a reference whose object is not of the promised class (it is a " + demangle(typeid(static_cast<const Node&>(v)).name()) + ")");
+      }
       if (o.seen && o.seen->insert(static_cast<const Node*>(&v)).second && o.discovered) o.discovered->push_back(static_cast<const Node*>(&v));
    }
    else if constexpr (SequenceLike<U>) touch_sequence(o, v, depth, where);
